@@ -20,14 +20,14 @@ template <typename T>
 template <floating_point Float>
 [[nodiscard]] constexpr auto conj(Float f) noexcept -> complex<Float>
 {
-    return complex<Float>(f);
+    return complex<Float>(f, -Float(0));
 }
 
 /// \ingroup complex
 template <integral Integer>
 [[nodiscard]] constexpr auto conj(Integer i) noexcept -> complex<double>
 {
-    return complex<double>(static_cast<double>(i));
+    return complex<double>(static_cast<double>(i), -0.0);
 }
 
 } // namespace etl
